@@ -30,6 +30,8 @@ USE_MODES = {
     "index": True,        # v[1] = 2
     "expr": True,         # self.X = 1 + v * 2
     "dotchain": False,    # self.a.v.b = 1        (inner member name)
+    "deepexpr": True,     # self.Total = v + 1 + 1 + … (80 operands: the mention is the DEEPEST node of a left-nested tree)
+    "deepnest": True,     # inside 36 nested blocks
 }
 # purge modes of a tVarByteArray local: True = purged in its own method
 PURGE_MODES = {
@@ -196,6 +198,14 @@ def render(p):
                 o.line("  self.Total = 1 + %s * 2" % use)
             elif v.use == "dotchain":
                 o.line("  self.Part.%s.Size = 1" % use)
+            elif v.use == "deepexpr":
+                o.line("  self.Total = %s%s" % (use, " + 1" * 80))
+            elif v.use == "deepnest":
+                for d in range(36):
+                    o.line("  %sif self.Flag" % (" " * d))
+                o.line("  %s%s = 1" % (" " * 36, use))
+                for d in reversed(range(36)):
+                    o.line("  %sendif" % (" " * d))
             if is_byte_array(v.ty):
                 pu = rc("Purge")
                 if v.purge == "purge":
@@ -315,7 +325,9 @@ def gen_method(rng, idx, c16_weight):
             purge = rng.choice(list(PURGE_MODES))
         elif rng.chance(1, 6):
             ty = rng.choice(["tVarByteArrays", "cstring", "aListOfInstances", "Text"])
-        use = rng.choice(list(USE_MODES))
+        use = rng.choice([u for u in USE_MODES if not u.startswith("deep")])
+        if rng.chance(1, 12):
+            use = rng.choice(["deepexpr", "deepnest"])
         m.locals.append(Local(nm, ty, use, purge))
     return m
 
